@@ -1092,6 +1092,7 @@ Fixpoint sk_skip_semis (fuel : nat) (z : tz) (tc : list str) : res (list str * t
   end.
 
 Fixpoint sk_body (fuel : nat) (m : mapper) (z : tz) (items : list item) (ncs : list str) (after_close : bool)
+                 (seen : list nat)
   : res (list item * list str * mapper * tz) :=
   match fuel with
   | O => OutOfFuel
@@ -1099,20 +1100,22 @@ Fixpoint sk_body (fuel : nat) (m : mapper) (z : tz) (items : list item) (ncs : l
     let '(cs, z) := pull_comments z in
     let ncs := ncs ++ cs in
     if tok_is z K_SEMI then do z1 <- next_token z ;; Ok (items, ncs, m, z1)
-    else if tok_is z P_OPEN then do z1 <- require_next_token z ;; sk_body f m z1 (items ++ [IOpen]) ncs false
-    else if tok_is z P_CLOSE then do z1 <- require_next_token z ;; sk_body f m z1 (items ++ [IClose]) ncs true
-    else if tok_is z K_COMMA then do z1 <- require_next_token z ;; sk_body f m z1 (items ++ [IComma]) ncs false
+    else if tok_is z P_OPEN then do z1 <- require_next_token z ;; sk_body f m z1 (items ++ [IOpen]) ncs false seen
+    else if tok_is z P_CLOSE then do z1 <- require_next_token z ;; sk_body f m z1 (items ++ [IClose]) ncs true seen
+    else if tok_is z K_COMMA then do z1 <- require_next_token z ;; sk_body f m z1 (items ++ [IComma]) ncs false seen
     else if tok_is z P_COLON then
       do z1 <- require_next_token z ;;
       let '(cs1, z1) := pull_comments z1 in
       do z2 <- require_next_token z1 ;;
-      sk_body f m z2 (items ++ [ILen (cur_text z1)]) (ncs ++ cs1) after_close
+      sk_body f m z2 (items ++ [ILen (cur_text z1)]) (ncs ++ cs1) after_close seen
     else
       let label := cur_text z in
-      do z1 <- require_next_token z ;;
-      if after_close then sk_body f m z1 (items ++ [ILabel label]) ncs after_close
+      if after_close then
+        do z1 <- require_next_token z ;; sk_body f m z1 (items ++ [ILabel label]) ncs after_close seen
       else let '(i, m1) := require_taxon_for_symbol lower m label in
-           sk_body f m1 z1 (items ++ [ITaxon i]) ncs after_close
+           (* self._seen_taxa: NewickReaderDuplicateTaxonError *)
+           if existsb (Nat.eqb i) seen then Err ParseErr
+           else do z1 <- require_next_token z ;; sk_body f m1 z1 (items ++ [ITaxon i]) ncs after_close (i :: seen)
   end.
 
 Fixpoint sk_trailing (fuel : nat) (z : tz) : res tz :=
@@ -1131,7 +1134,7 @@ Definition sk_parse_tree (m : mapper) (z : tz) : res (option sktree * mapper * t
   if z_eof z1 then Ok (None, m, z1)
   else
     let '(rooted, kept) := sk_tree_comments tree_comments None [] in
-    do r2 <- sk_body fuel m z1 [] [] false ;;
+    do r2 <- sk_body fuel m z1 [] [] false [] ;;
     let '(items, ncs, m1, z2) := r2 in
     do z3 <- sk_trailing fuel z2 ;;
     Ok (Some (mkSk None rooted kept items ncs), m1, z3).
